@@ -46,6 +46,9 @@ def gen_prog(rng, cfg):
                 tx.append(['del', keys[i]]); live.discard(i)
             else:
                 tx.append(['set', keys[i], dat])
+                if rng.random() < 0.3:
+                    # the same entity written by two flushes of one transaction
+                    tx += [['flush'], ['set', keys[i], [rng.choice([4, 5]), dat[1]]]]
         prog.append(tx)
     last = [['add', keys[i], [0, 0]] for i in range(len(keys)) if i not in live]
     if last:
@@ -96,6 +99,9 @@ def _write(env, cfg, prog, keep=None):
     try:
         for tx in prog:
             for op in tx:
+                if op[0] == 'flush':
+                    s.flush()
+                    continue
                 ident = tuple(op[1]) if len(op[1]) > 1 else op[1][0]
                 if op[0] == 'add':
                     o = Article(**dict(zip(kc, op[1])))
@@ -239,6 +245,8 @@ def _prog_ok(prog):
     live = set()
     for tx in prog:
         for op in tx:
+            if op[0] == 'flush':
+                continue
             k = tuple(op[1])
             if (op[0] == 'add') == (k in live):
                 return False
